@@ -479,6 +479,8 @@ pub assume_specification<T> [<[T]>::swap](s: &mut [T], a: usize, b: usize)
     requires a < old(s)@.len(), b < old(s)@.len(),
     ensures final(s)@ == old(s)@.update(a as int, old(s)@[b as int]).update(b as int, old(s)@[a as int]);
 pub assume_specification<T> [<[T]>::reverse](s: &mut [T]) ensures final(s)@ == old(s)@.reverse();
+pub assume_specification<'a> [<core::str::Chars<'a> as Iterator>::count](c: core::str::Chars<'a>) -> (r: usize)
+    ensures r == vstd::std_specs::iter::IteratorSpec::remaining(&c).len();
 // ---- X23: `a |= b;` / `a &= b;` are rewritten to `a = vs_or(a, b);` / `a = vs_and(a, b);` because Verus rejects the
 // ---- non-short-circuit `|` / `&` on bool.  Verified (not assumed) helpers; both operands are evaluated, as in the original.
 pub trait VsOrAnd: Sized {
